@@ -209,13 +209,14 @@ Print Assumptions vm_refines_ref_total.
 
 (* END TO END for string.find and string.match: for a printable pattern tree p with text pb that
    the parser maps back to p (both hypotheses are computable; goparse_roundtrip_small discharges
-   the second on its family), every byte subject and every init, the transcription of
+   the second on its family; backrefs_ok = pm.go's checkBackRefs accepts the tree: no %N inside
+   the still open capture N), every byte subject and every init, the transcription of
    stringlib.go's strFind / strMatch returns exactly the values of lstrlib's str_find_aux:
    positions, captures, position captures, nil.  (The reference raising an error is excluded:
    that is the malformed-pattern clause of the property, covered by the correspondence runs.) *)
 Theorem find_refines_ref :
   forall (p : seqpat) (pb s : bytes) (init : Z),
-    seq_okb p = true -> print_seq p = Some pb -> goParse pb = ParseOk p ->
+    seq_okb p = true -> print_seq p = Some pb -> goParse pb = ParseOk p -> backrefs_ok p = true ->
     is_bytes s = true -> 1 + Z.of_nat (vm_fuel s (goCompile p)) <= maxRecursionLevel ->
     0 < len pb ->
     ref_find s pb init <> Err ->
@@ -225,7 +226,7 @@ Print Assumptions find_refines_ref.
 
 Theorem match_refines_ref :
   forall (p : seqpat) (pb s : bytes) (init : Z),
-    seq_okb p = true -> print_seq p = Some pb -> goParse pb = ParseOk p ->
+    seq_okb p = true -> print_seq p = Some pb -> goParse pb = ParseOk p -> backrefs_ok p = true ->
     is_bytes s = true -> 1 + Z.of_nat (vm_fuel s (goCompile p)) <= maxRecursionLevel ->
     ref_smatch s pb init <> Err ->
     strMatch s pb (Some init) = ref_smatch s pb init.
